@@ -64,8 +64,20 @@ func runC29(r *Run) {
 		}
 		routes = append(routes, liteconfig.Route{Host: hosts, Backend: backends, Strategy: liteconfig.StrategySequential})
 	}
+	ref := cloneRoutes(routes) // the reference keeps its own copy: the configuration must not change by being used
 	w := newLite(r, routes, nil)
 	defer w.finish()
+	nConn := 1 + r.W.Pick(3)
+	for ci := 0; ci < nConn; ci++ {
+		if !c29One(r, w, ref, hostPool, ci) {
+			return
+		}
+	}
+}
+
+// c29One routes one connection; false ends the run (violation or inconclusive).
+func c29One(r *Run, w *liteWorld, routes []liteconfig.Route, hostPool []string, ci int) bool {
+	dialsBefore := len(w.dials)
 	// client host: derived from a pattern (so matches happen) or random
 	var host string
 	if r.W.Pick(3) != 0 && len(hostPool) > 0 {
@@ -105,7 +117,7 @@ func runC29(r *Run) {
 	r.Op("connect")
 	c := w.connect("172.30.0.5")
 	done := false
-	w.s.GoNamed("lclient", func() {
+	w.s.GoNamed(fmt.Sprintf("lclient%d", ci), func() {
 		defer func() { done = true }()
 		_, _ = c.conn.Write(handshakeFrame(763, host, 25565, 2))
 		c.readAll()
@@ -113,7 +125,7 @@ func runC29(r *Run) {
 	why := w.s.RunUntil(60*time.Second, func() bool { return done })
 	if why == "steps" {
 		r.Inconclusive("step budget exhausted")
-		return
+		return false
 	}
 	simrt.DriverCall(func() {})
 	// reference: first route (in order) having a host pattern that matches
@@ -149,21 +161,21 @@ func runC29(r *Run) {
 		}
 	}
 	var got []string
-	for _, d := range w.dials {
+	for _, d := range w.dials[dialsBefore:] {
 		got = append(got, d.Addr)
 	}
-	desc := fmt.Sprintf("routes=%s host=%q cleaned=%q matched-route=%d admissible=%v dialled=%v", routesStr(routes), host, clean, matchedRoute, wantLists, got)
+	desc := fmt.Sprintf("connection #%d routes=%s host=%q cleaned=%q matched-route=%d admissible=%v dialled=%v", ci+1, routesStr(routes), host, clean, matchedRoute, wantLists, got)
 	if matchedRoute < 0 {
 		if len(got) != 0 {
 			r.Fail("dialled-without-matching-route", "nomatch", "no route matches but a backend was dialled: %s", desc)
-			return
+			return false
 		}
 		if !c.EOF {
 			r.Fail("unrouted-client-not-closed", "nomatch", "no route matches but the client connection was not closed: %s", desc)
-			return
+			return false
 		}
 		r.State("nomatch")
-		return
+		return true
 	}
 	ok := false
 	for _, l := range wantLists {
@@ -180,10 +192,11 @@ func runC29(r *Run) {
 			sig += ":not-routed"
 		}
 		r.Fail("wrong-route-or-backends", sig, "the connection was not routed as the first matching route demands: %s", desc)
-		return
+		return false
 	}
 	r.State(fmt.Sprintf("r%d n%d", matchedRoute, len(got)))
 	r.Res.Sample = map[string]any{"routes": routesStr(routes), "host": host, "cleaned": clean, "route": matchedRoute, "dialled": got}
+	return true
 }
 
 func routesStr(rs []liteconfig.Route) string {
